@@ -189,6 +189,11 @@ func calleeName(c ssa.CallInstruction) string {
 		return cc.Method.Name()
 	}
 	if f := cc.StaticCallee(); f != nil {
+		if o, ok := f.Object().(*types.Func); ok {
+			if old, renamed := funcOldName[o]; renamed {
+				return old
+			}
+		}
 		return f.Name()
 	}
 	if b, ok := cc.Value.(*ssa.Builtin); ok {
@@ -369,7 +374,11 @@ func fieldName(t types.Type, idx int) string {
 	if n, ok := t.(*types.Named); ok {
 		owner = n.Obj().Name()
 	}
-	return owner + "." + st.Field(idx).Name()
+	name := st.Field(idx).Name()
+	if old, renamed := fieldOldName[owner+"."+name]; renamed {
+		name = old
+	}
+	return owner + "." + name
 }
 
 // origins computes the provenance tags of v inside its function (and through the bindings of a
@@ -580,6 +589,55 @@ func canonLinCmp(l Lit) (linCmp, bool) {
 
 var aliasParams bool
 
+// substStack holds, for pure helpers being expanded, the binding of the helper's parameters to
+// the caller's argument values (evaluated in the caller's own environment).
+var substStack []map[*ssa.Parameter]ssa.Value
+
+// pureHelperReturn: f is a small function of an orda package whose body computes one value from
+// its parameters without side effects (one return, no stores, no calls except getters/len);
+// returns the returned value.
+func pureHelperReturn(f *ssa.Function) ssa.Value {
+	if f == nil || f.Pkg == nil || !isOrda(f.Pkg.Pkg.Path()) || len(f.Blocks) != 1 || f.Signature.Results().Len() != 1 {
+		return nil
+	}
+	if len(substStack) > 3 {
+		return nil
+	}
+	var ret ssa.Value
+	for _, in := range f.Blocks[0].Instrs {
+		switch x := in.(type) {
+		case *ssa.Return:
+			ret = x.Results[0]
+		case *ssa.Store, *ssa.MapUpdate, *ssa.Go, *ssa.Defer, *ssa.Send, *ssa.Panic:
+			return nil
+		case *ssa.Call:
+			if _, isB := x.Call.Value.(*ssa.Builtin); isB {
+				continue
+			}
+			if getterField(x) == "" {
+				return nil
+			}
+		}
+	}
+	if ret == nil || !isIntegral(ret.Type()) {
+		return nil
+	}
+	return ret
+}
+
+func withSubst(c *ssa.Call, f func() string) string {
+	callee := c.Call.StaticCallee()
+	env := map[*ssa.Parameter]ssa.Value{}
+	for i, p := range callee.Params {
+		if i < len(c.Call.Args) {
+			env[p] = c.Call.Args[i]
+		}
+	}
+	substStack = append(substStack, env)
+	defer func() { substStack = substStack[:len(substStack)-1] }()
+	return f()
+}
+
 func exprNameD(v ssa.Value, d int) string {
 	if v == nil {
 		return "<nil>"
@@ -589,6 +647,16 @@ func exprNameD(v ssa.Value, d int) string {
 	}
 	switch x := v.(type) {
 	case *ssa.Parameter:
+		if n := len(substStack); n > 0 {
+			if arg, ok := substStack[n-1][x]; ok {
+				// evaluate the argument in the caller's environment
+				saved := substStack
+				substStack = substStack[:n-1]
+				name := exprNameD(arg, d+1)
+				substStack = saved
+				return name
+			}
+		}
 		if aliasParams && x.Parent() != nil {
 			for i, p := range x.Parent().Params {
 				if p == x {
@@ -658,6 +726,9 @@ func exprNameD(v ssa.Value, d int) string {
 			}
 			return b.Name() + "(" + strings.Join(as, ",") + ")"
 		}
+		if rv := pureHelperReturn(cc.StaticCallee()); rv != nil && getterField(x) == "" {
+			return withSubst(x, func() string { return "{" + linearOfD(rv, d+1).String() + "}" })
+		}
 		recv, args := recvAndArgs(x)
 		name := calleeName(x)
 		if recv != nil && len(args) == 0 && strings.HasPrefix(name, "Get") && len(name) > 3 {
@@ -677,6 +748,9 @@ func exprNameD(v ssa.Value, d int) string {
 		}
 		return name + "(" + strings.Join(as, ",") + ")"
 	case *ssa.BinOp:
+		if (x.Op == token.ADD || x.Op == token.SUB) && isIntegral(x.Type()) && d < 20 {
+			return "{" + linearOfD(x, d+1).String() + "}"
+		}
 		return "(" + exprNameD(x.X, d+1) + x.Op.String() + exprNameD(x.Y, d+1) + ")"
 	case *ssa.Phi:
 		if phiCyclic(x) {
@@ -872,6 +946,12 @@ func linearOfD(v ssa.Value, d int) Linear {
 			if x.Op == token.SUB {
 				return linearOfD(x.X, d+1).scale(-1)
 			}
+		case *ssa.Call:
+			if rv := pureHelperReturn(x.Call.StaticCallee()); rv != nil && getterField(x) == "" {
+				var out Linear
+				withSubst(x, func() string { out = linearOfD(rv, d+1); return "" })
+				return out
+			}
 		case *ssa.Alloc:
 			// single-store spill
 			var stores []ssa.Value
@@ -915,6 +995,17 @@ func linCmpOf(l Lit) (linCmp, bool) {
 	case token.GEQ:
 		d, op = d.scale(-1), token.LEQ
 	case token.EQL, token.NEQ:
+		// len(x) != 0 is len(x) > 0, len(x) == 0 is len(x) <= 0 (a length is never negative)
+		if d.K == 0 && len(d.Terms) == 1 {
+			for k, c := range d.Terms {
+				if strings.HasPrefix(k, "len(") && (c == 1 || c == -1) {
+					if op == token.NEQ {
+						return linCmp{L: Linear{Terms: map[string]int64{k: -1}}, Op: token.LSS}, true
+					}
+					return linCmp{L: Linear{Terms: map[string]int64{k: 1}}, Op: token.LEQ}, true
+				}
+			}
+		}
 		// canonical sign: first term (sorted) positive
 		var ks []string
 		for k := range d.Terms {
